@@ -5,6 +5,7 @@ import EpgVerif.Model.Jet
 import EpgVerif.Gen.MathTable
 import EpgVerif.Model.Coll
 import EpgVerif.Model.Shape
+import EpgVerif.Model.Sim
 /-
   Line-protocol driver over the executable model at `K := CF` (DESIGN Appendix A).
   One request per line; floats travel as the decimal of their IEEE-754 bits.
@@ -113,6 +114,8 @@ structure DState where
   js : SM JC := SM.init (1 : JC)
   vars : Array String := #[]
   coll : Coll.C := Coll.init none 0
+  items : Array (Sim.Item CF) := #[]
+  probes : Array (Option (Sim.AdcSpec CF)) := #[]
 
 def intOfTok (t : String) : Int := t.toInt!
 
@@ -237,6 +240,23 @@ def blochDump (d : DState) (N : Nat) (kmax : Nat) : String :=
     showPS (PS.smul ⟨1 / N.toFloat, 0⟩ acc))
   s!"bl {kmax} " ++ " ".intercalate rows
 
+def optC (t : String) : Option CF := if t == "none" then none else some (cOfTok t)
+def attrOfTok : String → Sim.Attr
+  | "F0" => .F0 | "Z0" => .Z0 | "F" => .F | _ => .Z
+def adcOfToks (attr wre wim red ph : String) : Sim.AdcSpec CF :=
+  { attr := attrOfTok attr, weight := if wre == "none" then none else some ⟨fOfTok wre, fOfTok wim⟩,
+    reduce := red == "1", phase := optC ph }
+def showVals (v : List CF) : String := " ".intercalate (v.map (fun c => bits c.re ++ " " ++ bits c.im))
+
+/-- `simrun`: `Sim.simulate` on the recorded items from the current state -/
+def simRun (d : DState) : List String :=
+  let seq := d.items.toList.map (Sim.Item.toSOp d.opts)
+  let probes := d.probes.toList.map (fun p => p.map (fun a => a.acquire))
+  let res := Sim.simulate probes seq d.sm (0 : CF)
+  let times := Sim.adcTimes seq (0 : CF)
+  [s!"sim {res.length}"] ++ res.map (fun (t, vals) => s!"e {bits t.re} | " ++ " | ".intercalate (vals.map showVals))
+    ++ [s!"times " ++ " ".intercalate (times.map (fun t => bits t.re))]
+
 def step (d : DState) (line : String) : DState × List String :=
   let toks := (line.trimAscii.toString.splitOn " ").filter (· ≠ "")
   match toks with
@@ -266,6 +286,18 @@ def step (d : DState) (line : String) : DState × List String :=
   | "cnew" :: _ | "cset" :: _ | "cpop" :: _ | "cresize" :: _ | "cexpand" :: _ | "creduce" :: _ | "cbroadcast" :: _ =>
       let (c', out) := collCmd d.coll toks
       ({ d with coll := c' }, [out])
+  | "sop" :: dur :: rest =>
+      (match parseOp rest with
+       | some op => ({ d with items := d.items.push (.op op (cOfTok dur)) }, [])
+       | none => (d, [s!"bad-op {line}"]))
+  | ["sadc", dur, attr, wre, wim, red, ph] =>
+      ({ d with items := d.items.push (.adc (adcOfToks attr wre wim red ph) (cOfTok dur)) }, [])
+  | ["sprobe", "none"] => ({ d with probes := d.probes.push none }, [])
+  | ["sprobe", attr, wre, wim, red, ph] => ({ d with probes := d.probes.push (some (adcOfToks attr wre wim red ph)) }, [])
+  | ["smodify", t1, t2, g, att] =>
+      ({ d with items := (Sim.modifyItems (fun (x : CF) => x.re > 0) (fun (x : CF) => x.re == 1.0)
+            (optC t1) (optC t2) (optC g) (optC att) d.items.toList).toArray }, [])
+  | ["simrun"] => ({ d with items := #[], probes := #[] }, simRun d)
   | ["dumpd"] => (d, dumpDiff d)
   | ["dumpj"] => (d, dumpJets d)
   | ["bloch", N, kmax] => (d, [blochDump d N.toNat! kmax.toNat!])
